@@ -105,6 +105,22 @@ def splitOn (sep : Char) : Text → List Text
 /-- `s.replace(c, '')`. -/
 def removeChar (c : Char) (s : Text) : Text := s.filter (· != c)
 
+/-- `s.rsplit(sep, 1)` / `s.rpartition(sep)`: the texts before and after the LAST `sep`
+    (`none` when there is no `sep`). -/
+def rsplitLast (sep : Char) : Text → Option (Text × Text)
+  | [] => none
+  | c :: s =>
+    match rsplitLast sep s with
+    | some (a, b) => some (c :: a, b)
+    | none => if c = sep then some ([], s) else none
+
+/-- `sheet, sep, coord = s.rpartition('!'); sheet + sep + coord.replace('$', '')`: the absolute markers are
+    removed from the coordinate part only (a sheet title may contain a `$` of its own). -/
+def stripCoordDollar (s : Text) : Text :=
+  match rsplitLast '!' s with
+  | some (sheet, coord) => sheet ++ '!' :: removeChar '$' coord
+  | none => removeChar '$' s
+
 /-- `c in s`. -/
 def has (c : Char) (s : Text) : Bool := s.contains c
 
@@ -158,7 +174,7 @@ def undouble : Text → Text
   | c :: r => c :: undouble r
   | [] => []
 
-/-- `resolve_sheet(sheet_str)` for a `sheet_str` without `!`.  `none` = Python `None`
+/-- `resolve_sheet(sheet_str)` (`re.fullmatch` of `SHEET_TITLE` on `sheet_str + '!'`).  `none` = Python `None`
     (the title `''`: `quoted` is empty, hence falsy, and `group("notquoted")` is `None`).  When the
     expression does not match, and also when its unquoted alternative matches, the result is the
     stripped string itself. -/
@@ -204,15 +220,15 @@ def coordSplit (s : Text) : Option (Text × Text) :=
   if row = [] then none else
   if s = [] then some (col, row) else none
 
-/-- `resolve_address(addr)`: `(sheet, col, row)`; ValueError when `addr` has not exactly one `!` or
-    the coordinate does not match. -/
+/-- `resolve_address(addr)`: `(sheet, col, row)`; ValueError when `addr` has no `!` or the
+    coordinate (the text after the last `!`) does not match. -/
 def resolveAddress (addr : Text) : Out (Option Text × Text × Text) :=
-  match splitOn '!' addr with
-  | [sheetStr, addrStr] =>
+  match rsplitLast '!' addr with                      -- `addr.rsplit('!', 1)`
+  | some (sheetStr, addrStr) =>
     match coordSplit addrStr with
     | some (col, row) => .val (resolveSheet sheetStr, col, row)
     | none => .crash .valueError
-  | _ => .crash .valueError
+  | none => .crash .valueError
 
 /-- `XLCell.__post_init__`: the address must resolve, the column must be a column. -/
 def xlCellCheck (addr : Text) : Out Unit :=
@@ -331,12 +347,12 @@ def resolveAreas : List Text → Option Text → RowSets → Out (Option Text ×
         resolveAreas rest sheet (mergeRows (acc.length + rows.length) acc rows)
       | _ => .crash .valueError
     if has '!' rng then
-      match splitOn '!' rng with
-      | [sheetStr, rng'] =>
+      match rsplitLast '!' rng with                     -- `rng.rsplit('!', 1)`
+      | some (sheetStr, rng') =>
         let rngSheet := resolveSheet sheetStr
         if sheet.isSome && sheet != rngSheet then .crash .valueError
         else step rngSheet rng'
-      | _ => .crash .valueError
+      | none => .crash .valueError
     else step sheet rng
 
 /-- `f'{sheet_str}{get_column_letter(col_idx)}{row_idx}'` -/
@@ -404,14 +420,14 @@ def Expr.mapRef (g : Text → Text) : Expr → Expr
   | .un f a => .un f (a.mapRef g)
   | .bin f a b => .bin f (a.mapRef g) (b.mapRef g)
 
-/-- `XLFormula.__post_init__`: the terms (`$` removed, sheet prefixed when unqualified); the
+/-- `XLFormula.__post_init__`: the terms (`$` removed from the coordinates, sheet prefixed when unqualified); the
     duplicate test compares the raw token value with the terms collected so far. -/
 def termsLoop (sheetName : Text) : List Text → List Text → List Text
   | [], terms => terms
   | tv :: rest, terms =>
     if terms.contains tv then termsLoop sheetName rest terms
     else
-      let term := removeChar '$' tv
+      let term := stripCoordDollar tv
       let term := if has '!' term then term else sheetName ++ ['!'] ++ term
       termsLoop sheetName rest (terms ++ [term])
 
@@ -419,7 +435,7 @@ def formulaTerms (sheetName : Text) (e : Expr) : List Text := termsLoop sheetNam
 
 /-- `RangeNode.full_address(context)` -/
 def fullAddress (tvalue : Text) (ctxSheet : Text) : Text :=
-  let addr := removeChar '$' tvalue
+  let addr := stripCoordDollar tvalue
   if has '!' addr then addr else ctxSheet ++ ['!'] ++ addr
 
 /-! ## the model (workbook) -/
@@ -523,8 +539,11 @@ def evalExpr (wb : Wb) (ec : Text → Out V) (ctxSheet : Text) : Expr → Out V
       | o => o
     | o => o
 
-/-- `ref.split("!")[0]` -/
-def sheetOf (ref : Text) : Text := (splitOn '!' ref).headD []
+/-- `ref.rsplit("!", 1)[0]` -/
+def sheetOf (ref : Text) : Text :=
+  match rsplitLast '!' ref with
+  | some (sheet, _) => sheet
+  | none => ref
 
 /-- the `try … except` of `Evaluator.evaluate`: every exception leaves as RuntimeError. -/
 def wrapRuntime : Out V → Out V
@@ -532,7 +551,7 @@ def wrapRuntime : Out V → Out V
   | o => o
 
 /-- `Evaluator.evaluate(addr)` below `resolve_names` — every formula cell is evaluated in a context
-    of its own (`_get_context(addr)`, whose sheet is `addr.split('!')[0]`), and the cells it reads are
+    of its own (`_get_context(addr)`, whose sheet is `addr.rsplit('!', 1)[0]`), and the cells it reads are
     evaluated through `EvaluatorContext.eval_cell` → `evaluate(addr, None)`, i.e. again in a fresh
     context.  `evaluating` is `Evaluator._evaluating`; fuel stands for Python's recursion. -/
 def evalCell (wb : Wb) : Nat → List Text → Text → Out V
@@ -580,13 +599,13 @@ def readCells (defaultSheet : Text) : List (Text × Item) → Dict Cell → Out 
           (dset cells cellAddress ⟨.blank, some ⟨sheetName, tokens, formulaTerms sheetName tokens, tokens⟩⟩)
     | _ => .crash .valueError
 
-/-- the address a defined name's text stands for in `build_defined_names`: `$` removed, and when
-    there is exactly one `!`, the sheet part resolved (`f'{None}!…'` prints `None`) -/
+/-- the address a defined name's text stands for in `build_defined_names`: `$` removed from the coordinates,
+    and when there is a `!`, the sheet part (before the last `!`) resolved (`f'{None}!…'` prints `None`) -/
 def nameAddress (text : Text) : Text :=
-  let cellAddress := removeChar '$' text
-  match splitOn '!' cellAddress with
-  | [sheetStr, coord] => (resolveSheet sheetStr).getD "None".toList ++ ['!'] ++ coord
-  | _ => cellAddress
+  let cellAddress := stripCoordDollar text
+  match rsplitLast '!' cellAddress with
+  | some (sheetStr, coord) => (resolveSheet sheetStr).getD "None".toList ++ ['!'] ++ coord
+  | none => cellAddress
 
 /-- one defined name of `build_defined_names` -/
 def defineName (wb : Wb) (name text : Text) : Out Wb :=
@@ -608,14 +627,14 @@ def buildDefinedNames : List (Text × Text) → Wb → Out Wb
     | .val wb' => buildDefinedNames rest wb'
     | o => o
 
-/-- `cells[a] = XLCell(a, '')` for the members that have no cell yet -/
+/-- `cells[a] = XLCell(a, None)` for the members that have no cell yet -/
 def addBlankCells : List Text → Dict Cell → Out (Dict Cell)
   | [], cells => .val cells
   | a :: rest, cells =>
     if dhas cells a then addBlankCells rest cells
     else
       match xlCellCheck a with
-      | .val () => addBlankCells rest (dset cells a ⟨.text [], none⟩)
+      | .val () => addBlankCells rest (dset cells a ⟨.blank, none⟩)
       | _ => .crash .valueError
 
 /-- body of the inner loop of `build_ranges` for one term -/
